@@ -791,6 +791,41 @@ def _findtop(o):
 EXTRA.append(_findtop)
 
 
+
+# ---------------------------------------------------------------------------
+# profile.py (C19)
+# ---------------------------------------------------------------------------
+
+def _profile(o):
+    pr = _src('gemato/profile.py')
+
+    def method_lines(cls, fn):
+        f = find_func(pr, fn, cls)
+        body = f.body
+        if body and isinstance(body[0], ast.Expr) and isinstance(body[0].value, ast.Constant):
+            body = body[1:]       # docstring
+        return llist(lstr(x) for st in body for x in _u(st).split('\n'))
+    for cls, fns in (('DefaultProfile', ['set_loader_options', 'get_entry_type_for_path', 'want_manifest_in_directory',
+                                         'get_ignore_paths_for_new_manifest', 'want_compressed_manifest']),
+                     ('EbuildRepositoryProfile', ['want_manifest_in_directory', 'get_ignore_paths_for_new_manifest', 'set_loader_options']),
+                     ('BackwardsCompatEbuildRepositoryProfile', ['get_entry_type_for_path', 'want_compressed_manifest'])):
+        for fn in fns:
+            o.item(f'prof_{cls}_{fn}', 'List (List Nat)', (lambda cls=cls, fn=fn: method_lines(cls, fn)), '[]')
+
+    def classes():
+        out = []
+        for c in pr.body:
+            if isinstance(c, ast.ClassDef):
+                nm = [ast.literal_eval(m.value) for m in c.body if isinstance(m, ast.Assign) and _u(m.targets[0]) == 'name']
+                out.append(f'({lstr(c.name)}, {lstr(_u(c.bases[0]) if c.bases else "")}, {lstr(nm[0] if nm else "")}, '
+                           f'{llist(lstr(m.name) for m in c.body if isinstance(m, ast.FunctionDef))})')
+        return llist(out)
+    o.item('profClasses', 'List (List Nat × List Nat × List Nat × List (List Nat))', classes, '[]')
+
+
+EXTRA.append(_profile)
+
+
 if __name__ == '__main__':
     errs = write_extracted()
     print(open(os.path.join(LEAN, 'Gemato', 'Extracted.lean')).read())
